@@ -51,7 +51,24 @@ def main():
     caught = {}
     try:
         rc, out = sh(f"git apply {patch}", scratch)
-        assert rc == 0, f"patch does not apply to /repo HEAD: {out}"
+        if rc != 0:
+            # /repo has moved on (a fix: commit) since the sub-agent's worktree was made: rebase the change with a 3-way merge
+            rc, out = sh(f"git apply --3way {patch}", scratch)
+            rc2, out2 = sh("grep -rl '^<<<<<<< ' src", scratch)
+            assert rc == 0 and not out2.strip(), f"patch does not apply to /repo HEAD, 3-way merge conflicts: {out} {out2}"
+            sh("git reset -q", scratch)
+            rc, out = sh("git diff -- src", scratch)
+            patch = f"{scratch}/.rebased.diff"
+            open(patch, "w").write(out)
+            ran.append("patch rebased onto the current /repo HEAD with git apply --3way (no conflicts)")
+            env3 = dict(os.environ, PYTHONPATH=f"{scratch}/src")
+            env3.pop("DIAMETER_VERIF", None)
+            rc, out = sh(f"/venv/bin/python {demo}", scratch, env3)
+            ran.append(f"demo with the rebased change on the current HEAD: exit {rc}")
+            assert rc != 0, "demo no longer fails with the rebased change"
+            rc, out = sh("/venv/bin/python -m pytest -q -p no:cacheprovider 2>&1 | tail -3", scratch, env3)
+            ran.append(f"pytest with the rebased change: {out.strip().splitlines()[-1]}")
+            assert "157 passed" in out
         env2 = dict(os.environ, VERIF_REPO=scratch, VERIF_EVIDENCE_DIR=f"{scratch}/.evidence")
         for c in checks:
             rc, out = sh(f"./check {c} --tier quick", "/verif", env2)
